@@ -79,6 +79,18 @@ struct c16_opress {
     uint64_t kout[C16_NPRESS];
 };
 
+/* "literal" context: the second operand is an integer constant expression at the call site (count * sizeof(T), + 1,
+ * - 1 ...), so that anything the helpers do under __builtin_constant_p / constant folding at -O2 is exercised.
+ * lit64[k](a, n, o) evaluates every 64-bit helper on (a[i], C16_LIT_k), once with the literal as second and once as first
+ * operand (o[2*i] and o[2*i+1]). */
+#define C16_LITS(X)                                                                                                     \
+    X(0, 0ULL) X(1, 1ULL) X(2, 2ULL) X(3, 3ULL) X(4, 4ULL) X(5, 8ULL) X(6, 16ULL) X(7, 24ULL) X(8, 64ULL) X(9, 255ULL) X(10, 256ULL)     \
+    X(11, 4096ULL) X(12, 65536ULL) X(13, 0x80000000ULL) X(14, 0x100000000ULL) X(15, 0x4000000000000000ULL)              \
+    X(16, 0x8000000000000000ULL) X(17, 0xFFFFFFFFFFFFFFFFULL) X(18, 1000000000ULL) X(19, 0x7FFFFFFFFFFFFFFFULL)
+#define C16_NLIT 20
+#define C16_LITVAL_(i, v) v,
+static const uint64_t C16_LIT_VALUES[C16_NLIT] = {C16_LITS(C16_LITVAL_)};
+
 struct c16_variant {
     const char *name;
     const char *what;
@@ -97,6 +109,8 @@ struct c16_variant {
     uint64_t (*conv_unit)(uint64_t ticks, uint64_t from, uint64_t to, uint64_t *rem);
     /* pressure context: c is only used by P_CONV_U64 (ticks=a, old=b, new=c) */
     void (*press[P_N])(uint64_t a, uint64_t b, uint64_t c, const uint64_t *kin, struct c16_opress *o);
+    /* literal context */
+    void (*lit64[C16_NLIT])(const uint64_t *a, size_t n, struct c16_o64 *o);
     /* block context */
     void (*blk64)(const uint64_t *a, const uint64_t *b, size_t n, struct c16_o64 *o);
     void (*blk32)(const uint32_t *a, const uint32_t *b, size_t n, struct c16_o32 *o);
@@ -264,6 +278,47 @@ static void blk64(const uint64_t *a, const uint64_t *b, size_t n, struct c16_o64
     }
 }
 
+/* ---- literal context: the same body as blk64 with one operand a constant expression */
+#    define C16_LIT_BODY(x, y, oo)                                                                                      \
+        do {                                                                                                           \
+            (oo)->sat[S64_ADD_U64] = aws_add_u64_saturating(x, y);                                                     \
+            (oo)->sat[S64_MUL_U64] = aws_mul_u64_saturating(x, y);                                                     \
+            (oo)->sat[S64_SUB_U64] = aws_sub_u64_saturating(x, y);                                                     \
+            (oo)->sat[S64_ADD_SIZE] = aws_add_size_saturating((size_t)(x), (size_t)(y));                               \
+            (oo)->sat[S64_MUL_SIZE] = aws_mul_size_saturating((size_t)(x), (size_t)(y));                               \
+            (oo)->sat[S64_SUB_SIZE] = aws_sub_size_saturating((size_t)(x), (size_t)(y));                               \
+            (oo)->mm[M64_MIN_U64] = aws_min_u64(x, y);                                                                 \
+            (oo)->mm[M64_MAX_U64] = aws_max_u64(x, y);                                                                 \
+            (oo)->mm[M64_MIN_I64] = (uint64_t)aws_min_i64((int64_t)(x), (int64_t)(y));                                 \
+            (oo)->mm[M64_MAX_I64] = (uint64_t)aws_max_i64((int64_t)(x), (int64_t)(y));                                 \
+            (oo)->mm[M64_MIN_SIZE] = aws_min_size((size_t)(x), (size_t)(y));                                           \
+            (oo)->mm[M64_MAX_SIZE] = aws_max_size((size_t)(x), (size_t)(y));                                           \
+            C16_LIT_CHK(S64_ADD_U64, aws_add_u64_checked, uint64_t, x, y, oo);                                         \
+            C16_LIT_CHK(S64_MUL_U64, aws_mul_u64_checked, uint64_t, x, y, oo);                                         \
+            C16_LIT_CHK(S64_SUB_U64, aws_sub_u64_checked, uint64_t, x, y, oo);                                         \
+            C16_LIT_CHK(S64_ADD_SIZE, aws_add_size_checked, size_t, x, y, oo);                                         \
+            C16_LIT_CHK(S64_MUL_SIZE, aws_mul_size_checked, size_t, x, y, oo);                                         \
+            C16_LIT_CHK(S64_SUB_SIZE, aws_sub_size_checked, size_t, x, y, oo);                                         \
+        } while (0)
+#    define C16_LIT_CHK(ix, fn, T, x, y, oo)                                                                           \
+        do {                                                                                                           \
+            T r_ = (T)C16_SENTINEL64;                                                                                  \
+            aws_reset_error();                                                                                         \
+            (oo)->rc[ix] = fn((T)(x), (T)(y), &r_);                                                                    \
+            (oo)->err[ix] = aws_last_error();                                                                          \
+            (oo)->out[ix] = (uint64_t)r_;                                                                              \
+        } while (0)
+#    define C16_LITFN(idx, K)                                                                                          \
+        static void lit64_##idx(const uint64_t *a, size_t n, struct c16_o64 *o) {                                      \
+            for (size_t i = 0; i < n; ++i) {                                                                           \
+                uint64_t x = a[i];                                                                                     \
+                C16_LIT_BODY(x, K, &o[2 * i]);                                                                         \
+                C16_LIT_BODY(K, x, &o[2 * i + 1]);                                                                     \
+            }                                                                                                          \
+        }
+C16_LITS(C16_LITFN)
+#    define C16_LITREF_(idx, K) lit64_##idx,
+
 static void blk32(const uint32_t *a, const uint32_t *b, size_t n, struct c16_o32 *o) {
     for (size_t i = 0; i < n; ++i) {
         uint32_t x = a[i], y = b[i];
@@ -380,6 +435,7 @@ const struct c16_variant C16_CAT(c16_variant_, C16_VARIANT_NAME) = {
     .conv_unit = thin_conv_unit,
     .press = {press_add_u64_sat, press_add_u64_chk, press_mul_u64_sat, press_mul_u64_chk, press_add_u32_sat,
               press_add_u32_chk, press_mul_u32_sat, press_mul_u32_chk, press_conv_u64},
+    .lit64 = {C16_LITS(C16_LITREF_)},
     .blk64 = blk64,
     .blk32 = blk32,
     .blksmall = blksmall,
